@@ -3,9 +3,12 @@
 (* UNBOUNDED geometry.  The closed forms are those of DoCuu .. DoCup, DoVpa,   *)
 (* DoDecstbm, Home, DoResize and DoDecrc's clamping, transcribed on integers.  *)
 (* Apalache checks that IndInv (cursor inside the screen, margins ordered,     *)
-(* origin mode confines the cursor to the region) is INDUCTIVE for all sizes   *)
-(* 1..100000 and all parameters -1..9999 - the bounded TLC families are not     *)
-(* hiding a size-dependent case (DESIGN.md 6, C05/C09).                         *)
+(* origin mode confines the cursor to the region) is INDUCTIVE for ALL integer *)
+(* sizes >= 1 and ALL integer parameters (quantification over Int, no bound) - *)
+(* the bounded TLC families are not hiding a size-dependent case (DESIGN.md 6, *)
+(* C05/C09).  MCCursorGeom.tla binds this transcription to ScreenOps: TLC      *)
+(* checks on small sizes that every step of every action here is exactly what  *)
+(* ScreenOps!Apply does to the same state on the corresponding event.          *)
 EXTENDS Integers
 
 VARIABLES
@@ -24,33 +27,34 @@ VARIABLES
   \* @type: Int;
   bot,
   \* @type: Bool;
-  decom
+  decom,
+  \* @type: Int;
+  saved
 
 Min2(a, b) == IF a <= b THEN a ELSE b
 Max2(a, b) == IF a >= b THEN a ELSE b
 N1(n) == IF n <= 0 THEN 1 ELSE n
-Par == -1..9999
-Size == 1..100000
+ColmWidth == 132
 
 Top == IF hasMar THEN top ELSE 0
 Bot == IF hasMar THEN bot ELSE L - 1
 Origin == hasMar /\ decom
 
 IndInv ==
-  /\ L \in Size /\ C \in Size
+  /\ L >= 1 /\ C >= 1 /\ (saved = -1 \/ saved >= 1)
   /\ 0 <= y /\ y < L /\ 0 <= x /\ x <= C
   /\ hasMar => (0 <= top /\ top < bot /\ bot <= L - 1)
   /\ (decom /\ hasMar) => (top <= y /\ y <= bot)
 
 IndInit ==
-  /\ L \in Int /\ C \in Int /\ x \in Int /\ y \in Int /\ top \in Int /\ bot \in Int
+  /\ L \in Int /\ C \in Int /\ saved \in Int /\ x \in Int /\ y \in Int /\ top \in Int /\ bot \in Int
   /\ hasMar \in BOOLEAN /\ decom \in BOOLEAN
   /\ IndInv
 
-Init == L = 24 /\ C = 80 /\ x = 0 /\ y = 0 /\ hasMar = FALSE /\ top = 0 /\ bot = 0 /\ decom = FALSE
+Init == L = 24 /\ C = 80 /\ x = 0 /\ y = 0 /\ hasMar = FALSE /\ top = 0 /\ bot = 0 /\ decom = FALSE /\ saved = -1
 
 Keep(vs) == vs
-Frame1 == UNCHANGED <<L, C, hasMar, top, bot, decom>>
+Frame1 == UNCHANGED <<L, C, hasMar, top, bot, decom, saved>>
 
 Cuu(n) == Frame1 /\ x' = x /\ y' = Max2(y - N1(n), Top)
 Cud(n) == Frame1 /\ x' = x /\ y' = Min2(y + N1(n), Bot)
@@ -74,23 +78,45 @@ Cup(l, c) ==
           /\ y' = IF Origin THEN Max2(top, Min2(line, bot)) ELSE Max2(0, Min2(line, L - 1))
 \* DECSTBM with clamping, acceptance only for >= 2 rows, homing (origin-aware)
 Decstbm(t, b) ==
-  /\ UNCHANGED <<L, C, decom>>
+  /\ UNCHANGED <<L, C, decom, saved>>
   /\ IF t <= 0 /\ b < 0 THEN hasMar' = FALSE /\ UNCHANGED <<top, bot, x, y>>
      ELSE LET tt == IF t < 0 THEN Top ELSE Max2(0, Min2(t - 1, L - 1))
               bb == IF b < 0 THEN Bot ELSE Max2(0, Min2(b - 1, L - 1)) IN
           IF bb - tt >= 1
             THEN hasMar' = TRUE /\ top' = tt /\ bot' = bb /\ x' = 0 /\ y' = (IF decom THEN tt ELSE 0)
             ELSE UNCHANGED <<hasMar, top, bot, x, y>>
-SetDecom == /\ UNCHANGED <<L, C, hasMar, top, bot>> /\ decom' = TRUE /\ x' = 0 /\ y' = (IF hasMar THEN top ELSE 0)
-ClrDecom == /\ UNCHANGED <<L, C, hasMar, top, bot>> /\ decom' = FALSE /\ x' = 0 /\ y' = 0
-\* resize: margins reset, cursor clamped into the new bounds
+SetDecom == /\ UNCHANGED <<L, C, hasMar, top, bot, saved>> /\ decom' = TRUE /\ x' = 0 /\ y' = (IF hasMar THEN top ELSE 0)
+ClrDecom == /\ UNCHANGED <<L, C, hasMar, top, bot, saved>> /\ decom' = FALSE /\ x' = 0 /\ y' = 0
+\* resize: nothing at all when the size is unchanged; otherwise margins reset and the cursor clamped into the
+\* new bounds (when lines are dropped the implementation first takes a pending-wrap cursor back to the last
+\* column of the OLD width - DoResize's x0)
+ResizeXY(l, c) ==
+  /\ x' = Min2(IF l < L THEN Min2(x, C - 1) ELSE x, c - 1)
+  /\ y' = Min2(y, l - 1)
 Resize(l, c) ==
-  /\ L' = l /\ C' = c /\ hasMar' = FALSE /\ UNCHANGED <<top, bot, decom>>
-  /\ x' = Min2(x, c - 1) /\ y' = Min2(y, l - 1)
+  IF l = L /\ c = C THEN UNCHANGED <<L, C, x, y, hasMar, top, bot, decom, saved>>
+  ELSE /\ L' = l /\ C' = c /\ hasMar' = FALSE /\ UNCHANGED <<top, bot, decom, saved>>
+       /\ ResizeXY(l, c)
+\* DECCOLM set: remember the width, resize to 132 columns (a no-op resize keeps the region), erase, home
+SetColm ==
+  LET keep == hasMar /\ C = ColmWidth IN
+  /\ saved' = C /\ C' = ColmWidth /\ L' = L /\ hasMar' = keep /\ UNCHANGED <<top, bot, decom>>
+  /\ x' = 0 /\ y' = (IF keep /\ decom THEN top ELSE 0)
+\* DECCOLM reset: back to the remembered width if the screen still has 132 columns, erase, home
+ClrColm ==
+  LET back == C = ColmWidth /\ saved >= 1
+      cnew == IF back THEN saved ELSE C
+      keep == hasMar /\ cnew = C IN
+  /\ saved' = (IF back THEN -1 ELSE saved) /\ C' = cnew /\ L' = L /\ hasMar' = keep /\ UNCHANGED <<top, bot, decom>>
+  /\ x' = 0 /\ y' = (IF keep /\ decom THEN top ELSE 0)
+\* RIS
+Ris == /\ UNCHANGED <<L, C, top, bot>> /\ hasMar' = FALSE /\ decom' = FALSE /\ saved' = -1 /\ x' = 0 /\ y' = 0
+\* IL / DL: carriage return when the cursor is inside the region, nothing otherwise
+IlDl == Frame1 /\ y' = y /\ x' = (IF Top <= y /\ y <= Bot THEN 0 ELSE x)
 \* DECRC: a saved position (any row/column saved earlier, possibly on a larger screen) clamped
 \* into the screen and the region; origin mode possibly re-enabled
 Decrc(sx, sy, so) ==
-  /\ UNCHANGED <<L, C, hasMar, top, bot>>
+  /\ UNCHANGED <<L, C, hasMar, top, bot, saved>>
   /\ decom' = (decom \/ so)
   /\ x' = Min2(sx, C - 1)
   /\ y' = IF hasMar THEN Max2(top, Min2(sy, bot)) ELSE Max2(0, Min2(sy, L - 1))
@@ -99,9 +125,9 @@ Ind == Frame1 /\ x' = x /\ y' = (IF y = Bot THEN y ELSE Min2(y + 1, Bot))
 Ri  == Frame1 /\ x' = x /\ y' = (IF y = Top THEN y ELSE Max2(y - 1, Top))
 
 Next ==
-  \/ \E n \in Par : Cuu(n) \/ Cud(n) \/ Cuf(n) \/ Cub(n) \/ Cnl(n) \/ Cpl(n) \/ Cha(n) \/ Vpa(n)
-  \/ \E l \in Par, c \in Par : Cup(l, c) \/ Decstbm(l, c)
-  \/ Cr \/ DrawLast \/ SetDecom \/ ClrDecom \/ Ind \/ Ri
-  \/ \E l \in Size, c \in Size : Resize(l, c)
-  \/ \E sx \in 0..100000, sy \in 0..100000, so \in BOOLEAN : Decrc(sx, sy, so)
+  \/ \E n \in Int : Cuu(n) \/ Cud(n) \/ Cuf(n) \/ Cub(n) \/ Cnl(n) \/ Cpl(n) \/ Cha(n) \/ Vpa(n)
+  \/ \E l \in Int, c \in Int : Cup(l, c) \/ Decstbm(l, c)
+  \/ Cr \/ DrawLast \/ SetDecom \/ ClrDecom \/ Ind \/ Ri \/ SetColm \/ ClrColm \/ Ris \/ IlDl
+  \/ \E l \in Int, c \in Int : l >= 1 /\ c >= 1 /\ Resize(l, c)
+  \/ \E sx \in Int, sy \in Int, so \in BOOLEAN : sx >= 0 /\ sy >= 0 /\ Decrc(sx, sy, so)
 =============================================================================
